@@ -35,6 +35,8 @@ type transInst struct {
 	c       *circuit.Circuit
 	log     []string
 	results []int64
+	closerOpened int
+	unarmedAllow bool
 }
 
 type scriptedOpener struct{}
@@ -51,10 +53,25 @@ func (scriptedOpener) Closed(context.Context, time.Time)                       {
 func (scriptedOpener) ShouldOpen(context.Context, time.Time) bool              { return true }
 func (scriptedOpener) Prevent(context.Context, time.Time) bool                 { return false }
 
-type scriptedCloser struct{ scriptedOpener }
+// the scripted closer admits every probe (the model's gate says so) but remembers whether it was ever asked to
+// admit a call on an open circuit BEFORE it had been told of any opening: the real hystrix closer arms its
+// sleep window in Opened, so a closer asked that early would be an un-armed gate that lets the call through
+type scriptedCloser struct {
+	scriptedOpener
+	g *transInst
+}
 
-func (scriptedCloser) ShouldClose(context.Context, time.Time) bool { return true }
-func (scriptedCloser) Allow(context.Context, time.Time) bool       { return true }
+func (c scriptedCloser) Opened(context.Context, time.Time) {
+	verifsched.Pause() // the closer has been called but has not armed itself yet
+	c.g.closerOpened++
+}
+func (scriptedCloser) ShouldClose(context.Context, time.Time) bool   { return true }
+func (c scriptedCloser) Allow(context.Context, time.Time) bool {
+	if c.g.closerOpened == 0 {
+		c.g.unarmedAllow = true
+	}
+	return true
+}
 
 type noteCollector struct{ g *transInst }
 
@@ -92,10 +109,11 @@ func (g *transInst) cfg(fo, fc bool) circuit.Config {
 func (g *transInst) Build(s *verifsched.Sched) []func() {
 	cfg := g.cfg(g.p.Fo, g.p.Fc)
 	cfg.General.ClosedToOpenFactory = func() circuit.ClosedToOpen { return scriptedOpener{} }
-	cfg.General.OpenToClosedFactory = func() circuit.OpenToClosed { return scriptedCloser{} }
+	cfg.General.OpenToClosedFactory = func() circuit.OpenToClosed { return scriptedCloser{g: g} }
 	cfg.Metrics.Circuit = []circuit.Metrics{noteCollector{g}}
 	c := circuit.NewCircuitFromConfig("t", cfg)
 	g.c, g.log = c, nil
+	g.closerOpened, g.unarmedAllow = 0, false
 	v := reflect.ValueOf(c).Elem()
 	s.Name(fieldAddr(v, "threadSafeConfig", "CircuitBreaker", "ForceOpen"), "Lfo")
 	s.Name(fieldAddr(v, "threadSafeConfig", "CircuitBreaker", "ForcedClosed"), "Lfc")
@@ -170,6 +188,10 @@ func (g *transInst) Check(s *verifsched.Sched, c *Case) {
 			break
 		}
 	}
+	if g.unarmedAllow {
+		c.Viol = append(c.Viol, Violation{"C01: while a circuit is open the close logic decides admission only after it was told of the opening (a closer asked earlier is an un-armed gate that admits the call)", "Allow was consulted for an open circuit before any Opened notification reached the closer"})
+		c.Viol = append(c.Viol, Violation{"C03: no call that starts after the opening and within SleepWindow of it runs the protected function", "Allow was consulted for an open circuit before any Opened notification reached the closer: its sleep window is not armed yet"})
+	}
 	if s.Dead {
 		return
 	}
@@ -211,6 +233,8 @@ func (g *transInst) Check(s *verifsched.Sched, c *Case) {
 
 func (transScenario) Corpus() []Instance {
 	return []Instance{
+		// a caller racing the opening transition: the flag must not be visible before the closer was told
+		&transInst{p: transParams{Threads: []tThread{{Kind: "open"}, {Kind: "succeed"}}}},
 		// D10: concurrent OpenCircuit must notify once
 		&transInst{p: transParams{Threads: []tThread{{Kind: "open"}, {Kind: "open"}}}},
 		// D10: open / open / close: isOpen must agree with the last notification
